@@ -35,36 +35,88 @@ def _cmp_in_return(fn):
     return cmps[0] if len(cmps) == 1 else None
 
 
+class _Val(PyModel):
+    """Abstract operand: a value class, a sort key, a text form."""
+
+    def __init__(self, cls, key=None, text='', value=None):
+        self.cls = cls
+        self._key = key
+        self._text = text
+        self.value = value if value is not None else text
+        self.sort_precedence = key[0] if key else 0
+        self.calls = []
+
+    def _sort_key(self, other):
+        self.calls.append('_sort_key')
+        return self._key
+
+    def __str__(self):
+        return self._text
+
+    def __Blank__(self):
+        self.calls.append('__Blank__')
+        return self
+
+
+def _isinst(ctx):
+    def isinst(val, refs):
+        refs = refs if isinstance(refs, tuple) else (refs,)
+        cls = getattr(val, 'cls', None) if isinstance(val, PyModel) else (val.get('cls') if isinstance(val, Rec) and 'cls' in val.f else None)
+        return bool(cls) and any(r and ctx.res.is_subclass(cls, r) for r in refs)
+    return isinst
+
+
+def _models():
+    import operator as op
+    m = {f'ext:operator.{n}': getattr(op, n) for n in ('lt', 'le', 'eq', 'ne', 'gt', 'ge')}
+    m[XLT + 'ExcelType.cast_from_native'] = lambda v: v
+    return m
+
+
+def _bool_result(out):
+    """Truth value carried by the returned Boolean(...) (or a plain bool)."""
+    v = out.value
+    if out.end != 'return':
+        return f'<{out.end} {out.value!r}>'
+    if isinstance(v, Rec) and 'cls' in v.f and v.get('cls') == XLT + 'Boolean':
+        a = v.get('args')
+        return a[0] if a else None
+    return v
+
+
+PYOPS = {'__lt__': lambda a, b: a < b, '__le__': lambda a, b: a <= b, '__eq__': lambda a, b: a == b,
+         '__ne__': lambda a, b: a != b, '__gt__': lambda a, b: a > b, '__ge__': lambda a, b: a >= b}
+
+
 def rule_1(ctx):
+    """Decision table of the six base comparisons over the three orderings of two sort keys."""
     fm = ctx.mod('xlfunctions.func_xltypes')
-    shapes = {}
-    for name, opcls in CMP.items():
+    N = XLT + 'Number'
+    for name in CMP:
         fn = fm.func(f'ExcelType.{name}')
         p = func_params(fn)
-        c = _cmp_in_return(fn)
-        ok = c is not None and len(c.ops) == 1 and type(c.ops[0]) is opcls
-        why = f'{name} applies {type(c.ops[0]).__name__ if c is not None else "no single comparison"}, expected {opcls.__name__}'
-        if ok:
-            l, r = c.left, c.comparators[0]
-            # self._sort_key(other)  vs  other._sort_key(self)
-            def key_of(e):
-                if isinstance(e, ast.Call) and isinstance(e.func, ast.Attribute) and isinstance(e.func.value, ast.Name):
-                    return (e.func.value.id, e.func.attr, tuple(ast.unparse(a) for a in e.args))
-                return None
-            kl, kr = key_of(l), key_of(r)
-            ok = kl is not None and kr is not None and kl[0] == p[0] and kr[0] == p[1] and kl[1] == kr[1] \
-                and kl[2] == (p[1],) and kr[2] == (p[0],)
-            why = f'{name} compares `{ast.unparse(l)}` with `{ast.unparse(r)}`: not self-key (op) other-key'
-            shapes[name] = (kl and kl[1])
-        ctx.expect(ok, fn, f'ExcelType.{name}', why)
-        norm = [a for a in walk_local(fn) if isinstance(a, ast.Assign) and isinstance(a.targets[0], ast.Name)
-                and a.targets[0].id == p[1] and isinstance(a.value, ast.Call)
-                and ctx.res.resolve(a.value.func, fm) == XLT + 'ExcelType.cast_from_native']
-        ctx.expect(len(norm) == 1, fn, f'ExcelType.{name} normalises the other operand',
+        wrong = []
+        for ka, kb in (((0, 1), (0, 2)), ((0, 2), (0, 1)), ((0, 1), (0, 1)), ((0, 5), (1, 'a')), ((2, 0), (1, 'z'))):
+            a, b = _Val(N, ka), _Val(N, kb)
+            it = Interp(ctx.a, fm, {p[0]: a, p[1]: b}, isinstance_fn=_isinst(ctx), call_models=_models(),
+                        self_class=XLT + 'ExcelType', scope_fn=fn)
+            try:
+                out = it.run(fn.body)
+            except Unmodelled as exc:
+                raise Unmodelled(f'ExcelType.{name}: {exc}')
+            got = _bool_result(out)
+            want = PYOPS[name](ka, kb)
+            if got is not want and got != want:
+                wrong.append((ka, kb, got, want))
+            if a.calls.count('_sort_key') != 1 or b.calls.count('_sort_key') != 1:
+                wrong.append(('keys', a.calls, b.calls, 'each operand asked for its key once'))
+        ctx.expect(not wrong, fn, f'ExcelType.{name}',
+                   f'{name} on operands with sort keys {wrong[0][0]} and {wrong[0][1]} gives {wrong[0][2]!r}, expected {wrong[0][3]!r}: the six '
+                   'comparisons must apply their own operator to (key of self, key of other)' if wrong else '')
+        norm = [c for c in flow.calls_in(ctx.inl(fn)) if ctx.res.resolve(c.func, fm) == XLT + 'ExcelType.cast_from_native']
+        ctx.expect(len(norm) >= 1, fn, f'ExcelType.{name} normalises the other operand',
                    f'{name} does not convert a native other operand with cast_from_native first')
-    ctx.expect(len(set(shapes.values())) == 1, fm.cls('ExcelType'), 'six comparisons use the same key function',
-               f'the comparisons use different key functions: {shapes}')
-    ctx.floor(13, 'six comparisons x (operator/keys, normalisation) + agreement')
+    ctx.floor(12, 'six comparisons x (decision table, normalisation)')
 
 
 def rule_2(ctx):
@@ -148,35 +200,65 @@ def asymmetric_overrides(ctx):
     return False
 
 
+def _run_override(ctx, fm, qual, name, selfv, other):
+    fn = fm.func(f'{qual}.{name}')
+    p = func_params(fn)
+    it = Interp(ctx.a, fm, {p[0]: selfv, p[1]: other}, isinstance_fn=_isinst(ctx), call_models=_models(),
+                self_class=XLT + qual, scope_fn=fn)
+    return _bool_result(it.run(fn.body)), fn
+
+
 def rule_3(ctx):
+    """Overrides of the rich comparisons: complete, case-insensitive among texts, and ordered by type precedence against
+    operands of another class (decision tables on abstract operands)."""
     fm, ov = _overrides(ctx)
-    n = 0
+    T, N, B = XLT + 'Text', XLT + 'Number', XLT + 'Boolean'
     for qual, names in sorted(ov.items()):
         missing = sorted(set(CMP) - set(names))
-        n += 1
         ctx.expect(not missing, fm.cls(qual), f'{qual} overrides all six comparisons or none',
                    f'{qual} overrides {sorted(names)} but not {missing}: the overridden and the inherited comparisons use '
                    'different notions of equality/order, so a=b, a<b, a>b are no longer mutually exclusive')
-        folds = {}
         for name in names:
             fn = fm.func(f'{qual}.{name}')
-            n += 1
-            c = _cmp_in_return(fn)
-            ok = c is not None and type(c.ops[0]) is CMP[name]
-            ctx.expect(ok, fn, f'{qual}.{name} applies its own operator',
-                       f'{qual}.{name} applies {type(c.ops[0]).__name__ if c is not None else "?"}')
-            aware, why = _type_aware(ctx, fn, fm)
-            ctx.expect(aware, fn, f'{qual}.{name} is type-aware', f'{qual}.{name} {why}')
-            if c is not None:
-                def fold_fn(e):
-                    return tuple(sorted({x.func.attr for x in ast.walk(e) if isinstance(x, ast.Call)
-                                         and isinstance(x.func, ast.Attribute) and x.func.attr in ('upper', 'lower', 'casefold')}))
-                fl, fr = fold_fn(c.left), fold_fn(c.comparators[0])
-                folds[name] = (fl, fr)
-                ctx.expect(fl == fr and fl, fn, f'{qual}.{name} folds case on both sides alike',
-                           f'{qual}.{name} folds case with {fl} on the left and {fr} on the right')
-        ctx.expect(len(set(folds.values())) <= 1, fm.cls(qual), f'{qual}: same case folding in all overrides',
-                   f'overrides of {qual} fold case differently: {folds}')
+            if qual != 'Text':
+                # an override in another class: it must still agree with the key order on same-class operands
+                aware, why = _type_aware(ctx, fn, fm)
+                ctx.expect(aware, fn, f'{qual}.{name} is type-aware', f'{qual}.{name} {why}')
+                c = _cmp_in_return(fn)
+                ctx.expect(c is not None and type(c.ops[0]) is CMP[name], fn, f'{qual}.{name} applies its own operator',
+                           f'{qual}.{name} does not apply {CMP[name].__name__} to its operands')
+                continue
+            # texts among themselves: case-insensitive order
+            wrong = []
+            try:
+                for a, b in (('a', 'B'), ('B', 'a'), ('a', 'A'), ('abc', 'ABD'), ('', 'a')):
+                    got, _ = _run_override(ctx, fm, qual, name, Rec(cls=T, value=a), _Val(T, (1, b), b))
+                    want = PYOPS[name](a.lower(), b.lower())
+                    if got != want:
+                        wrong.append((a, b, got, want))
+            except Unmodelled as exc:
+                ctx.unmodelled(fn, f'{qual}.{name} on text operands: {exc}')
+                continue
+            ctx.expect(not wrong, fn, f'{qual}.{name} folds case on both sides alike',
+                       f'Text {wrong[0][0]!r} {name} Text {wrong[0][1]!r} gives {wrong[0][2]!r}, expected {wrong[0][3]!r} '
+                       '(texts compare case-insensitively)' if wrong else '')
+            # against another class: type precedence decides (number < text < boolean)
+            wrong = []
+            try:
+                for label, other, rel in (('Number 5', _Val(N, (0, 5), '5'), 1), ('Number 1', _Val(N, (0, 1), '1'), 1),
+                                          ('Boolean TRUE', _Val(B, (2, 1), 'True'), -1), ('Boolean FALSE', _Val(B, (2, 0), 'False'), -1)):
+                    for text in ('1', 'zz', 'True'):
+                        got, _ = _run_override(ctx, fm, qual, name, Rec(cls=T, value=text), other)
+                        want = PYOPS[name](rel, 0)
+                        if got != want:
+                            wrong.append((text, label, got, want))
+            except Unmodelled as exc:
+                ctx.unmodelled(fn, f'{qual}.{name} against another class: {exc}')
+                continue
+            ctx.expect(not wrong, fn, f'{qual}.{name} is type-aware',
+                       f'Text {wrong[0][0]!r} {name} {wrong[0][1]} gives {wrong[0][2]!r}, expected {wrong[0][3]!r}: the override compares text '
+                       'forms whatever the class of the other operand is, instead of ordering by type (every number < every text < FALSE < TRUE); '
+                       '"1"<5 is TRUE while 5>"1" is FALSE' if wrong else '')
     ctx.floor(10, 'override sets')
 
 
@@ -202,22 +284,26 @@ def rule_4(ctx):
                     ok = v.args[0].value == neutral and type(v.args[0].value) is type(neutral)
                     why = f'blank equivalent of {c} is {v.args[0].value!r}, expected {neutral!r}'
         ctx.expect(ok, fn if fn is not None else fm.cls(c), f'{c}.__Blank__ yields the neutral {c}', why)
-    # Blank vs Blank terminates: Blank._sort_key must not call other.__Blank__()._sort_key(self) when other is a Blank
+    # Blank vs Blank terminates: Blank._sort_key must not ask a Blank other for its blank equivalent
     bk = fm.func('Blank._sort_key')
     p = func_params(bk)
-    rec_calls = [c for c in flow.calls_in(bk) if isinstance(c.func, ast.Attribute) and c.func.attr == '_sort_key'
-                 and '__Blank__' in ast.unparse(c.func.value)]
-    ok = True
-    for c in rec_calls:
-        conds = flow.path_conditions(c)
-        based = any(any(isinstance(x, ast.Call) and isinstance(x.func, ast.Name) and x.func.id == 'isinstance'
-                        and isinstance(x.args[0], ast.Name) and x.args[0].id == p[1]
-                        and ctx.res.resolve(x.args[1], fm) == XLT + 'Blank' for x in ast.walk(cd.test))
-                    and not cd.polarity for cd in conds)
-        ok = ok and based
-    ctx.expect(ok, bk, 'Blank._sort_key has a base case for Blank vs Blank',
+    other = _Val(XLT + 'Blank', (0, 0), '')
+    it = Interp(ctx.a, fm, {p[0]: Rec(cls=XLT + 'Blank', value=None), p[1]: other}, isinstance_fn=_isinst(ctx),
+                call_models=_models(), self_class=XLT + 'Blank', scope_fn=bk)
+    try:
+        out = it.run(bk.body)
+        asked = '__Blank__' in other.calls
+    except Unmodelled as exc:
+        raise Unmodelled(f'Blank._sort_key: {exc}')
+    ctx.expect(not asked and out.end == 'return', bk, 'Blank._sort_key has a base case for Blank vs Blank',
                'Blank._sort_key asks the other operand for its blank equivalent even when the other operand is a Blank: '
                'the two call each other until RecursionError (=A1=B1 on two empty cells)')
+    other = _Val(XLT + 'Number', (0, 7), '7')
+    it = Interp(ctx.a, fm, {p[0]: Rec(cls=XLT + 'Blank', value=None), p[1]: other}, isinstance_fn=_isinst(ctx),
+                call_models=_models(), self_class=XLT + 'Blank', scope_fn=bk)
+    out = it.run(bk.body)
+    ctx.expect('__Blank__' in other.calls and out.end == 'return', bk, 'Blank takes the blank equivalent of a non-blank operand',
+               'a blank compared with a non-blank value no longer converts to the blank equivalent of that value\'s class')
     # the base case compares as equal numbers: key independent of `other`
     ctx.floor(5, 'blank conversions')
 
